@@ -1,8 +1,10 @@
 (* C25 — Every declared name is found by the runtime lookup of generated tables.
-   Statements only; proofs are in C25/Proofs.v. *)
+   Statements only; proofs are in C25/Proofs.v (hand model) and C25/GenProofs.v (the function regenerated
+   from src/c/parse_c_type.c into C25/Gen.v on every run is the hand model). *)
+From Coq Require Import String.
 From Coq Require Import List Arith NArith Permutation.
 Import ListNotations.
-From Cffi Require Import C25.Model C25.Proofs.
+From Cffi Require Import C25.Model C25.Gen C25.Proofs C25.GenProofs.
 
 (* binary search with the strncmp-prefix comparator, on any table strictly sorted in byte
    order, for any key: a hit is a real entry equal to the key, a miss means no entry equals it *)
@@ -37,6 +39,59 @@ Theorem C25_declared_iff_found : forall names key,
                               /\ nth i (py_sorted names) [] = key).
 Proof. exact declared_names_found. Qed.
 Print Assumptions C25_declared_iff_found.
+
+(* ---- tie to the source: C25/Gen.v is re-translated from search_sorted / MAKE_SEARCH_FUNC on every run ----
+   the regenerated three-way decision (conditions `diff == 0 && src[search_len] == '\0'`, `diff >= 0`, and the
+   actions `return middle`, `right = middle`, `left = middle + 1`) is the model's probe, for every table entry and key *)
+Theorem C25_gen_is_model : forall src key left right middle,
+  gen_body (strncmp src key (List.length key)) (N.eqb (char_at src (List.length key)) 0) left right middle
+  = match probe_at src key with
+    | Found => GReturn middle
+    | GoLeft => GNext left middle
+    | GoRight => GNext (middle + 1) right
+    end.
+Proof. exact gen_is_model. Qed.
+Print Assumptions C25_gen_is_model.
+
+(* the whole regenerated function (initial bounds, loop condition, middle, decision, and the early return of
+   MAKE_SEARCH_FUNC on an empty table) computes the model's search_sorted on every table and key *)
+Theorem C25_gen_search_is_model : forall t key, gen_search_in t key = search_sorted t key.
+Proof. exact gen_search_in_is_model. Qed.
+Print Assumptions C25_gen_search_is_model.
+
+(* hence the headline statements hold of the regenerated search_in_FIELD *)
+Theorem C25_search_in_correct : forall (t : list cstr) (key : cstr),
+  Forall nulfree t -> nulfree key ->
+  (forall i j, i < j < List.length t -> lex (nth i t []) (nth j t []) = Lt) ->
+  match gen_search_in t key with
+  | Some m => m < List.length t /\ nth m t [] = key
+  | None   => forall i, i < List.length t -> nth i t [] <> key
+  end.
+Proof. exact gen_search_in_correct. Qed.
+Print Assumptions C25_search_in_correct.
+
+Theorem C25_search_in_declared_iff_found : forall names key,
+  NoDup names -> Forall nulfree names -> nulfree key ->
+  (In key names <-> exists i, gen_search_in (py_sorted names) key = Some i
+                              /\ nth i (py_sorted names) [] = key).
+Proof. exact gen_declared_names_found. Qed.
+Print Assumptions C25_search_in_declared_iff_found.
+
+(* regenerated facts: the macro is instantiated for exactly the four name tables, the record type of each has the
+   key field `const char *name` that the macro passes; recompiler.py sorts _struct_unions, _enums and every step
+   table except "field" on the attribute `name` *)
+Theorem C25_tables_searched_on_name :
+  gen_search_fields = [("globals", true); ("struct_unions", true); ("typenames", true); ("enums", true)]%string
+  /\ map (fun r => snd r) (tl gen_sort_keys) = ["name"; "name"; "name"]%string.
+Proof. exact gen_tables_fact. Qed.
+Print Assumptions C25_tables_searched_on_name.
+
+(* a table with a DUPLICATE key (struct x and union x declared together: two records named "x" in
+   _struct_unions) is outside the hypothesis: only one of the two indices can be returned
+   (finite computation; replayed on the implementation as known finding struct-union-same-tag) *)
+Example C25_duplicate_key_example :
+  gen_search_in [[120]; [120]; [121]]%N [120]%N = Some 1 /\ gen_search_in [[119]; [120]; [120]]%N [120]%N = Some 1.
+Proof. vm_compute. split; reflexivity. Qed.
 
 (* non-vacuity: prefixes of one another, one-character differences *)
 Example C25_example :
